@@ -36,7 +36,7 @@ def run(ctx):
                 "non-trivial = P not constant across rows; slack on the boundary = 4*K*eps*(1+|log eps|) * scale (DESIGN 12)")
     ctx.do_prove()
     eps = 1e-12
-    reps = 3 if ctx.tier == "quick" else 25
+    reps = 6 if ctx.tier == "quick" else 200
     rs = np.random.RandomState(ctx.seed * 613 + 13)
     lines, expect = [], []
     how = "gemclus.gemini.<Class>(ovo, kernel/metric='precomputed')(P, A, return_grad=True) on the transformed inputs"
@@ -67,20 +67,27 @@ def run(ctx):
                 ctx.violation("score or gradient not finite on the closed simplex", "finite", inp, actual=s, key=f"finite:{cfg}", how=how)
                 continue
             tolr = 1e-9 if cls not in ("mmd", "wass") else 1e-7
+            # next to a zero MMD distance the gradient is ill-conditioned (gemini_lib.mmd_conditioning): scores are still
+            # compared, gradients are not (any two correct implementations, or summation orders, differ there)
+            illc = cls == "mmd" and gl.mmd_conditioning(P, A, ovo, eps) < 1e-6
+            if illc:
+                ctx.count("illconditioned_gradient_not_compared:mmd-near-zero-distance")
+            gclose = (lambda a, b: True) if illc else (lambda a, b: core.close_vec(a, b, rtol=1e-6))
             # model correspondence on the closed simplex (score; gradients for the non-POT classes)
             if cls != "wass":
                 lines.append(gl.model_line("score", cls, ovo, eps, P, A)); expect.append(("score:" + cfg, inp, [s], scale))
-                lines.append(gl.model_line("grad", cls, ovo, eps, P, A)); expect.append(("grad:" + cfg, inp, G.ravel().tolist(), scale))
+                if not illc:
+                    lines.append(gl.model_line("grad", cls, ovo, eps, P, A)); expect.append(("grad:" + cfg, inp, G.ravel().tolist(), scale))
             # sample permutation
             sg = rs.permutation(n)
             A2 = None if A is None else A[sg][:, sg]
             s2, G2 = ev(cls, ovo, P[sg], A2)
-            if not core.close(s, float(s2), rtol=tolr * scale, atol=tolr * scale) or not core.close_vec(G[sg].ravel().tolist(), np.asarray(G2).ravel().tolist(), rtol=1e-6):
+            if not core.close(s, float(s2), rtol=tolr * scale, atol=tolr * scale) or not gclose(G[sg].ravel().tolist(), np.asarray(G2).ravel().tolist()):
                 ctx.violation(f"not invariant under a sample permutation: {s} vs {float(s2)}", "sample-perm", {**inp, "perm": sg.tolist()}, key=f"sample-perm:{cfg}", how=how)
             # cluster permutation
             tau = rs.permutation(K)
             s3, G3 = ev(cls, ovo, P[:, tau], A)
-            if not core.close(s, float(s3), rtol=tolr * scale, atol=tolr * scale) or not core.close_vec(G[:, tau].ravel().tolist(), np.asarray(G3).ravel().tolist(), rtol=1e-6):
+            if not core.close(s, float(s3), rtol=tolr * scale, atol=tolr * scale) or not gclose(G[:, tau].ravel().tolist(), np.asarray(G3).ravel().tolist()):
                 ctx.violation(f"not invariant under a cluster permutation: {s} vs {float(s3)}", "cluster-perm", {**inp, "perm": tau.tolist()}, key=f"cluster-perm:{cfg}", how=how)
             # empty cluster
             Pe = np.concatenate([P, np.zeros((n, 1))], axis=1)
@@ -130,7 +137,10 @@ def run(ctx):
     for (unit, inp, vals, scale), o in zip(expect, outs):
         m = [core.unhex(x) for x in o.split()]
         ctx.compared("closed:" + unit)
-        ok = core.close(vals[0], m[0], rtol=1e-9 * scale, atol=1e-9 * scale) if len(vals) == 1 else core.close_vec(vals, m, rtol=1e-7)
+        # an MMD distance is the square root of a difference of O(scale) terms: where that difference cancels (identical
+        # cluster conditionals, e.g. hard labels all in one cluster) its rounding noise 1e-16*scale becomes 1e-8*sqrt(scale)
+        atol = 2e-7 * math.sqrt(scale) if unit.startswith("score:mmd") else 1e-9 * scale
+        ok = core.close(vals[0], m[0], rtol=1e-9 * scale, atol=atol) if len(vals) == 1 else core.close_vec(vals, m, rtol=1e-7)
         if not ok:
             ctx.corr_break("closed:" + unit, inp, {"impl": vals, "model": m})
     return ctx.finish()
